@@ -255,6 +255,8 @@ func c01(c *Ctx) (*report.Result, error) {
 		}
 		res.RuleDoc["O1.16"] = "the confirmation that is translated is the target's overall one (same analysis as O4.17): recvAck hands the id table the received SyncReplicationState's own InclusiveLowWatermark"
 		checkAckWatermarkSource(c, res, "O1.16")
+		res.RuleDoc["O1.18"] = "a target that has been handed tasks keeps constraining the minimum (same analysis as O4.19): no entry of ackByTarget is removed during an incarnation"
+		checkAckTableNeverShrinks(c, res, "O1.18")
 		res.RuleDoc["O1.17"] = "the levels acknowledged are the ones the id table reported for this confirmation (same analysis as O5.11): recvAck does not edit the map returned by AggregateUpTo"
 		checkTranslationNotEdited(c, res, "O1.17")
 		res.RuleDoc["O1.15"] = "what is re-acknowledged for an idle source shard is only what the id table said the target confirmed: prevAckBySource is written only by recvAck, under the sender's mutex, with the (source shard, level) pair of AggregateUpTo's result, and Run creates it empty - recvAck's fallback branch acknowledges every remembered level again, without any further test, whenever an ack covers no new entry"
